@@ -34,6 +34,32 @@ func tSelOn(x, l string) *ast.Term {
 func tCase(x ast.Nm, brs ...ast.Branch) *ast.Term { return &ast.Term{Kind: ast.TCase, X: x, Brs: brs} }
 func br(l, p string, k *ast.Term) ast.Branch      { return ast.Branch{Label: l, Payload: ast.N(p), K: k} }
 func tFwd(y string) *ast.Term                     { return &ast.Term{Kind: ast.TFwd, X: ast.SelfNm, Y: ast.N(y)} }
+
+// withPol marks the structural rules and forwards of t that act on name x with the polarity pos
+// (+1 / -1) when the program is to be runnable unchecked (FwdPol).
+func (g *ProgGen) withPol(t *ast.Term, pos int) *ast.Term {
+	if !g.FwdPol {
+		return t
+	}
+	switch t.Kind {
+	case ast.TDrop:
+		t.X.Pol = pos
+	case ast.TSplit:
+		t.Z.Pol = pos
+	case ast.TFwd:
+		t.Y.Pol = pos
+	}
+	return t
+}
+
+// fwdPos forwards a channel of positive type; with FwdPol the polarity is written out.
+func (g *ProgGen) fwdPos(y string) *ast.Term {
+	t := tFwd(y)
+	if g.FwdPol {
+		t.Y.Pol = 1
+	}
+	return t
+}
 func tDrop(x string, k *ast.Term) *ast.Term       { return &ast.Term{Kind: ast.TDrop, X: ast.N(x), K: k} }
 func tSplit(a, b, x string, k *ast.Term) *ast.Term {
 	return &ast.Term{Kind: ast.TSplit, X: ast.N(a), Y: ast.N(b), Z: ast.N(x), K: k}
@@ -103,11 +129,11 @@ func (g *ProgGen) natFamily(k int) natFam {
 		br(f.lz, "x'", tSelSelf(f.lz, "x'")),
 		br(f.ls, "x'", tNew("h", nil, tCall(f.double, "x'"), tNew(dname, dann, tSelSelf(f.ls, "h"), tSelSelf(f.ls, dname))))), "x")
 	fun(f.add, nat(), tCase(ast.N("a"),
-		br(f.lz, "c", tWait("c", tFwd("b"))),
+		br(f.lz, "c", tWait("c", g.fwdPos("b"))),
 		br(f.ls, "c", tNew("r", nil, tCall(f.add, "c", "b"), tSelSelf(f.ls, "r")))), "a", "b")
 	// sum2 recurses on both arguments at once, so that one process holds the predecessors of two numbers
 	fun(f.sum2, nat(), tCase(ast.N("a"),
-		br(f.lz, "c", tWait("c", tFwd("b"))),
+		br(f.lz, "c", tWait("c", g.fwdPos("b"))),
 		br(f.ls, "a'", tCase(ast.N("b"),
 			br(f.lz, "c", tWait("c", tSelSelf(f.ls, "a'"))),
 			br(f.ls, "b'", tNew("r", nil, tCall(f.sum2, "a'", "b'"), tNew("t", nat(), tSelSelf(f.ls, "r"), tSelSelf(f.ls, "t"))))))), "a", "b")
@@ -168,14 +194,14 @@ func (g *ProgGen) natScenario(k int) {
 				x, a, b := live[len(live)-1], g.fresh("l"), g.fresh("r")
 				live[len(live)-1] = a
 				live = append(live, b)
-				steps = append(steps, func(k *ast.Term) *ast.Term { return tSplit(a, b, x, k) })
+				steps = append(steps, func(k *ast.Term) *ast.Term { return g.withPol(tSplit(a, b, x, k), 1) })
 				g.feat("rec-split")
 			}
 		case 3: // drop (weakening) a recursive value: cascading reclamation
 			if m.W() && len(live) > 1 {
 				x := live[len(live)-1]
 				live = live[:len(live)-1]
-				steps = append(steps, func(k *ast.Term) *ast.Term { return tDrop(x, k) })
+				steps = append(steps, func(k *ast.Term) *ast.Term { return g.withPol(tDrop(x, k), 1) })
 				g.feat("rec-drop")
 			}
 		default: // print in between
@@ -226,7 +252,7 @@ func (g *ProgGen) serverScenario(k int) {
 		var body *ast.Term
 		if i == 0 {
 			if m.W() && g.Bool("dropserver") {
-				body = tDrop("s", tClose())
+				body = g.withPol(tDrop("s", tClose()), -1)
 				g.feat("server-dropped")
 			} else {
 				body = tNew("x", one(), tSelOn("s", stop), tWait("x", tClose()))
@@ -241,8 +267,8 @@ func (g *ProgGen) serverScenario(k int) {
 	var body *ast.Term
 	if m.C() && g.Bool("splitserver") {
 		// two clients of one (duplicated) server
-		body = tNew("sv", nil, tCall(server), tSplit("s1", "s2", "sv",
-			tNew("c1", nil, tCall(top, "s1"), tNew("c2", nil, tCall(top, "s2"), tWait("c1", tWait("c2", tClose()))))))
+		body = tNew("sv", nil, tCall(server), g.withPol(tSplit("s1", "s2", "sv",
+			tNew("c1", nil, tCall(top, "s1"), tNew("c2", nil, tCall(top, "s2"), tWait("c1", tWait("c2", tClose()))))), -1))
 		g.feat("server-split")
 	} else {
 		body = tNew("sv", nil, tCall(server), tNew("c1", nil, tCall(top, "sv"), tWait("c1", tPrint(g.plabel("served"), tClose()))))
@@ -277,7 +303,7 @@ func (g *ProgGen) counterScenario(k int) {
 		var b *ast.Term
 		if i == 0 {
 			if m.W() && g.Bool("dropcounter") {
-				b = tDrop("c", tClose())
+				b = g.withPol(tDrop("c", tClose()), -1)
 				g.feat("counter-dropped")
 			} else {
 				b = tNew("x", one(), tSelOn("c", stop), tWait("x", tClose()))
@@ -293,7 +319,7 @@ func (g *ProgGen) counterScenario(k int) {
 	}
 	var main *ast.Term
 	if m.C() && g.Bool("splitcounter") {
-		main = mk(tSplit("c1", "c2", "cn", tNew("r1", nil, tCall(top, "c1"), tNew("r2", nil, tCall(top, "c2"), tWait("r1", tWait("r2", tClose()))))))
+		main = mk(g.withPol(tSplit("c1", "c2", "cn", tNew("r1", nil, tCall(top, "c1"), tNew("r2", nil, tCall(top, "c2"), tWait("r1", tWait("r2", tClose()))))), -1))
 		g.feat("counter-split")
 	} else {
 		main = mk(tNew("r1", nil, tCall(top, "cn"), tWait("r1", tPrint(g.plabel("counted"), tClose()))))
@@ -342,8 +368,8 @@ func (g *ProgGen) pairServer(k int, f natFam) {
 		u := g.fresh("u")
 		return tNew(u, nil, tCall(f.consume, x), tWait(u, k))
 	}
-	use := tNew("ps", nil, tCall(srv, "px", "py"), tSplit("p1", "p2", "ps",
-		tNew("g1", one(), tSelOn("p1", golab), tNew("g2", one(), tSelOn("p2", golab), tWait("g1", tWait("g2", tPrint(g.plabel("pairdone"), tClose())))))))
+	use := tNew("ps", nil, tCall(srv, "px", "py"), g.withPol(tSplit("p1", "p2", "ps",
+		tNew("g1", one(), tSelOn("p1", golab), tNew("g2", one(), tSelOn("p2", golab), tWait("g1", tWait("g2", tPrint(g.plabel("pairdone"), tClose())))))), -1))
 	inner := tCase(ast.N("dy"),
 		br(f.lz, "c", tWait("c", consumeThen("px", tClose()))),
 		br(f.ls, "py", use))
@@ -400,7 +426,7 @@ func (g *ProgGen) relayScenario(k int) {
 	}
 	g.Funs = append(g.Funs,
 		&ast.Decl{Kind: ast.DFun, Name: mk, Ty: tokT(), Body: mkBodyT},
-		&ast.Decl{Kind: ast.DFun, Name: relay, Ty: ackT(), Params: []ast.Param{{Name: "x", Ty: tokT()}}, Body: tFwd("x")},
+		&ast.Decl{Kind: ast.DFun, Name: relay, Ty: ackT(), Params: []ast.Param{{Name: "x", Ty: tokT()}}, Body: g.fwdPos("x")},
 		&ast.Decl{Kind: ast.DFun, Name: use, Ty: one(), Params: []ast.Param{{Name: "x", Ty: tokT()}}, Body: useBodyT})
 	main := tNew("v", nil, tCall(mk), tNew("w", nil, tCall(relay, "v"), tNew("u", nil, tCall(use, "w"), tWait("u", tClose()))))
 	g.Prcs = append(g.Prcs, &ast.Decl{Kind: ast.DPrc, Providers: []string{fmt.Sprintf("relaymain%d", k)}, Ty: one(), Body: main})
